@@ -61,6 +61,13 @@ func rpayload(t int, v int64) *prc.ProcessId {
 	return &prc.ProcessId{LogicalAddress: fmt.Sprintf("c10-pay-%d", t), PhysicalAddress: strconv.FormatInt(v, 10)}
 }
 
+// lpayload is a plain Go value: the codec of the sharing layer cannot encode it, so a publication of it must stay on the
+// publisher's node — where every subscriber of the topic still has to receive it
+type lpayload struct {
+	T int
+	V int64
+}
+
 func (e *renv) tok(r vivid.ActorRef) string {
 	if r == nil {
 		return "none"
@@ -139,6 +146,10 @@ func (a *rActor) OnReceive(ctx vivid.ActorContext) {
 	case *vivid.OnRestarting, *vivid.OnRestarted, *vivid.OnTerminate:
 	case *cmd:
 		m.do(ctx)
+	case lpayload:
+		e.mu.Lock()
+		e.dl = append(e.dl, Dl{To: a.idx, Inst: a.inst, From: e.tok(ctx.Sender()), M: Msg{K: "user", T: m.T, V: m.V}})
+		e.mu.Unlock()
 	case *prc.ProcessId:
 		d := Dl{To: a.idx, Inst: a.inst, From: e.tok(ctx.Sender()), M: Msg{K: "other", Ty: "ProcessId " + m.LogicalAddress}}
 		var t int
@@ -338,14 +349,20 @@ func (e *renv) step(o Op) (res Res) {
 		if n <= 0 {
 			n = 1
 		}
+		pay := func(i int) vivid.Message {
+			if o.Loc {
+				return lpayload{T: o.T, V: o.V + int64(i)}
+			}
+			return rpayload(o.T, o.V+int64(i))
+		}
 		if o.A < 0 {
 			for i := 0; i < n; i++ {
-				e.sys[node].Publish(topicName(o.T), rpayload(o.T, o.V+int64(i)))
+				e.sys[node].Publish(topicName(o.T), pay(i))
 			}
 		} else {
 			tell(func(ctx vivid.ActorContext) {
 				for i := 0; i < n; i++ {
-					ctx.Publish(topicName(o.T), rpayload(o.T, o.V+int64(i)))
+					ctx.Publish(topicName(o.T), pay(i))
 				}
 			})
 		}
@@ -560,7 +577,7 @@ func monitorRemote(c *RCase) (viol []vh.Violation) {
 			}
 			for k := 0; k < n; k++ {
 				for _, s := range subs {
-					if s.active && s.topic == o.T && alive[s.who] {
+					if s.active && s.topic == o.T && alive[s.who] && (!o.Loc || nodeOf(s.who) == nodeOf(o.A)) {
 						wants = append(wants, want{s.who, Msg{K: "user", T: o.T, V: o.V + int64(k)}, rfrom(o.A)})
 					}
 				}
@@ -666,6 +683,9 @@ func coqROp(o Op) string {
 		n := o.N
 		if n <= 0 {
 			n = 1
+		}
+		if o.Loc {
+			return vh.App("QPubL", coqRPub(o.A), vh.Nat(o.T), vh.Z(o.V))
 		}
 		return vh.App("QPubN", coqRPub(o.A), vh.Nat(o.T), vh.Z(o.V), vh.Nat(n))
 	case "R":
@@ -836,6 +856,8 @@ func genRemote(rng *vh.RNG) (c RCase, malformed bool) {
 			}
 			if rng.Chance(1, 3) {
 				o.N = rng.Range(2, 4)
+			} else if rng.Chance(1, 3) {
+				o.Loc = true // a value that cannot travel: local subscribers only
 			}
 			if o.N > 0 {
 				next += int64(o.N)
@@ -879,6 +901,9 @@ func remoteCorpus() []RCase {
 		{Remote: true, Ops: []Op{{K: "SP", A: 0}, {K: "SP", A: 1}, {K: "SP", A: 2}, {K: "SP", A: 3}, {K: "S", A: 0, T: 0}, {K: "S", A: 2, T: 0}, {K: "S", A: 2, T: 0},
 			{K: "P", A: 1, T: 0, V: 1, N: 3}, {K: "P", A: 3, T: 0, V: 4}, {K: "P", A: -1, T: 0, V: 5}, {K: "U", A: 2, V: 2}, {K: "P", A: 1, T: 0, V: 6, N: 2},
 			{K: "R", A: 2, Ls: []int{1}}, {K: "P", A: 1, T: 0, V: 8}, {K: "P", A: 0, T: 1, V: 9}, {K: "X", A: 0}, {K: "P", A: 3, T: 0, V: 10}, {K: "P", A: 3, T: 7, V: 11}}},
+		// a value that cannot travel, published on a linked node: the publisher's node still delivers it, the other node sees nothing
+		{Remote: true, Ops: []Op{{K: "SP", A: 0}, {K: "SP", A: 1}, {K: "SP", A: 2}, {K: "S", A: 0, T: 0}, {K: "S", A: 1, T: 0}, {K: "S", A: 2, T: 0},
+			{K: "P", A: 0, T: 0, V: 1}, {K: "P", A: 0, T: 0, V: 2, Loc: true}, {K: "P", A: -1, T: 0, V: 3, Loc: true}, {K: "P", A: 2, T: 0, V: 4, Loc: true}, {K: "P", A: 1, T: 0, V: 5}}},
 		// the last handler of an instance subscribes: released on the remote side as well
 		{Remote: true, Ops: []Op{{K: "SP", A: 0}, {K: "SP", A: 2}, {K: "S", A: 0, T: 0}, {K: "X", A: 2, W: ip(0)}, {K: "P", A: 0, T: 0, V: 1}, {K: "SP", A: 2}, {K: "P", A: 0, T: 0, V: 2}}},
 		// ids are per node: a subscription of node 0 used in an UnSubscribe on node 1 must not cancel node 1's subscription number 1
